@@ -75,6 +75,16 @@ def r2(ctx, rep):
     a = rows.get("AlwaysQuoted")
     rep.check(a is not None and show(tail_expr(a["body"]) if a["body"].get("k") == "block" else a["body"]) == "sql_ast::Ident::with_quote(ctx.dialect.ident_quote(), ident)", "always",
               "AlwaysQuoted dialects must quote every identifier", file=f["file"], line=f["l"], fn=f["path"])
+    # the quoted form: the name is handed unchanged to sqlparser's Ident::with_quote, whose Display uses the same
+    # heuristic escaper as string literals (oracles/libs.json)
+    import json as _json, os as _os
+    L = _json.load(open(_os.path.join(_os.path.dirname(_os.path.dirname(_os.path.dirname(_os.path.abspath(__file__)))), "oracles", "libs.json")))
+    raw = [n for n in walk(f["body"]) if n.get("k") == "call" and show(n["f"]) == "sql_ast::Ident::with_quote" and show(n["a"][1]) == "ident"]
+    if L["sqlparser"]["single_quoted_string_escaping"] == "heuristic" and raw:
+        rep.bad("quoted-ident-unsanitised", "a name that needs quoting is passed unchanged to Ident::with_quote; sqlparser doubles an embedded quote only when it is not preceded by a backslash: "
+                "the column `a\\\"b` is emitted as \"a\\\"b\" (identifier `a\\`, then stray text)", file=f["file"], line=raw[0]["l"], fn=f["path"])
+    else:
+        rep.ok("quoted-ident")
     ib = [n for n in f["body"]["s"] if n.get("k") == "local" and show(n["pat"]) == "is_bare"]
     rep.check(bool(ib) and show(ib[0]["init"]) == "valid_ident().is_match(&ident)", "is_bare", "is_bare must be the valid_ident() regex test", file=f["file"], line=f["l"], fn=f["path"])
     # quote characters
